@@ -313,6 +313,9 @@ fn formats() -> Vec<&'static str> {
         // two sections chosen by a condition on the serial (threshold filled in per case)
         "[<=T]yyyy-mm-dd;dd/mm/yyyy",
         "[>T]dd/mm/yyyy;yyyy-mm-dd",
+        // weekday and month names (the library renders them in English)
+        "dddd, mmmm dd, yyyy",
+        "ddd d mmm yyyy",
     ]
 }
 
@@ -324,6 +327,17 @@ fn expected_display(fmt: &str, y: i64, m: i64, d: i64, sec: u32) -> String {
         "yyyy/mm/dd" | "yyyy/mm/dd;@" | "[$-F800]yyyy/mm/dd" => format!("{:04}/{:02}/{:02}", y, m, d),
         "dd/mm/yyyy" | "[$-C09]dd/mm/yyyy" => format!("{:02}/{:02}/{:04}", d, m, y),
         "[$-40C]yyyy-mm-dd" | "[$-409]yyyy-mm-dd" => format!("{:04}-{:02}-{:02}", y, m, d),
+        "dddd, mmmm dd, yyyy" | "ddd d mmm yyyy" => {
+            const DAYS: [&str; 7] = ["Thursday", "Friday", "Saturday", "Sunday", "Monday", "Tuesday", "Wednesday"];
+            const MONTHS_LONG: [&str; 12] = ["January", "February", "March", "April", "May", "June", "July", "August", "September", "October", "November", "December"];
+            // 1970-01-01 was a Thursday
+            let wd = DAYS[(days_from_civil(y, m, d).rem_euclid(7)) as usize];
+            if fmt.starts_with("dddd") {
+                format!("{}, {} {:02}, {:04}", wd, MONTHS_LONG[(m - 1) as usize], d, y)
+            } else {
+                format!("{} {} {} {:04}", &wd[..3], d, MONTHS[(m - 1) as usize], y)
+            }
+        }
         "mm-dd-yy" => format!("{:02}-{:02}-{:02}", m, d, y % 100),
         "m/d/yy h:mm" => format!("{}/{}/{:02} {}:{:02}", m, d, y % 100, hh, mi),
         "d-mmm-yy" => format!("{}-{}-{:02}", d, MONTHS[(m - 1) as usize], y % 100),
@@ -342,7 +356,7 @@ fn display_case(_t: Tier) -> BoxedStrategy<DisplayCase> {
         2 => prop::sample::select(vec![1u32, 59, 60, 3599, 3600, 43199, 43200, 86399]),
         3 => 0u32..86400,
     ];
-    (day, second, 0u8..14, any::<bool>(), -1i8..=1)
+    (day, second, 0u8..16, any::<bool>(), -1i8..=1)
         .prop_map(|(day_index, second, format, via_cell, delta)| DisplayCase {
             day_index,
             second,
